@@ -569,7 +569,7 @@ fn execute(sys: &Sys, t: &Tables, local: &Local, vi: usize, a: &Action, sync_poo
         let inp = &materialise(sys, t, linp);
         let before = local.blocks.clone();
         let crash = a.crash_lost.then_some(bftsim::Crash { at: 0, applied: false, fail: false });
-        let out = bftsim::step(&sys.w, vi, &local, inp, &Policy { crash, sync: sync_pool.to_vec() });
+        let out = bftsim::step(&sys.w, vi, &local, inp, &Policy { shutdown: false, crash, sync: sync_pool.to_vec() });
         steps += 1;
         sent_msgs.extend(out.sent.iter().cloned());
         flags.blocked |= out.blocked;
@@ -970,7 +970,7 @@ pub fn good_period(sys: &Sys, t: &Tables, g: &G, max_timeout_rounds: u32) -> Goo
                 return GoodPeriod { ok: false, rounds, real_steps: steps, trace, why: "message storm: more than 3000 deliveries in one round".into() };
             }
             let sp = sync_pool(&locals);
-            let out = bftsim::step(&sys.w, sys.correct[ri], &locals[ri], &Input::Msg(m), &Policy { crash: None, sync: sp.clone() });
+            let out = bftsim::step(&sys.w, sys.correct[ri], &locals[ri], &Input::Msg(m), &Policy { shutdown: false, crash: None, sync: sp.clone() });
             steps += 1;
             let mut sent = out.sent.clone();
             locals[ri] = out.local;
@@ -979,7 +979,7 @@ pub fn good_period(sys: &Sys, t: &Tables, g: &G, max_timeout_rounds: u32) -> Goo
             }
             if let Some(j) = out.published {
                 if sys.w.leader(j.view().number.0) == sys.correct[ri] {
-                    let o2 = bftsim::step(&sys.w, sys.correct[ri], &locals[ri], &Input::Propose(j), &Policy { crash: None, sync: sp });
+                    let o2 = bftsim::step(&sys.w, sys.correct[ri], &locals[ri], &Input::Propose(j), &Policy { shutdown: false, crash: None, sync: sp });
                     steps += 1;
                     sent.extend(o2.sent);
                 }
@@ -1006,7 +1006,7 @@ pub fn good_period(sys: &Sys, t: &Tables, g: &G, max_timeout_rounds: u32) -> Goo
         trace.push(format!("round {rounds}: all view timers fire (views {:?})", locals.iter().map(|l| l.snap.view_number.0).collect::<Vec<_>>()));
         for ri in 0..n {
             let sp = sync_pool(&locals);
-            let out = bftsim::step(&sys.w, sys.correct[ri], &locals[ri], &Input::Timeout, &Policy { crash: None, sync: sp });
+            let out = bftsim::step(&sys.w, sys.correct[ri], &locals[ri], &Input::Timeout, &Policy { shutdown: false, crash: None, sync: sp });
             steps += 1;
             locals[ri] = out.local;
             for m in out.sent {
